@@ -5,7 +5,7 @@
 #include <map>
 #include <array>
 using namespace vf;
-void inst(gray8_view_t const& g, rgb8_view_t const& c, gray8s_view_t const& gs, rgb8_planar_view_t const& pl){
+void inst(gray8_view_t const& g, rgb8_view_t const& c, gray8s_view_t const& gs, rgb8_planar_view_t const& pl, bgr8_view_t const& bg, argb8_view_t const& ar, gray16_view_t const& g16){
   histogram<int> h1; histogram<int, int, int> h3;
   std::vector<std::vector<bool>> mask;
   h1.fill(g); h1.fill(g, 2, true, mask, std::make_tuple(1), std::make_tuple(9), true);
@@ -18,10 +18,14 @@ void inst(gray8_view_t const& g, rgb8_view_t const& c, gray8s_view_t const& gs, 
   h1.fill(gs, 3); h3.fill(pl, 2); auto s3 = h3.sub_histogram<0, 1>(std::make_tuple(1, 1, 0), std::make_tuple(3, 3, 0)); (void)s3;
   // keys built from a sub-selection of the channels (an axis index may exceed the number of axes)
   histogram<int, int> h2; h1.fill<2>(c, 2); h2.fill<2, 0>(c, 4); h2.fill<1, 2>(pl, 2); fill_histogram<2>(c, h1, 2);
+  // the same picture in another memory order: the axes are colours
+  h1.fill<0>(bg, 2); h3.fill(bg); h2.fill<2, 0>(ar, 4);
   std::vector<int> hv; std::array<int, 64> ha; std::map<int, int> hm;
   fill_histogram(g, hv); fill_histogram(g, hv, true); fill_histogram(g, ha); fill_histogram(g, hm, true);
   std::vector<long> hv2; std::array<long, 16> ha2; std::map<long, long> hm2;
   fill_histogram(c, hv2); fill_histogram(c, ha2, true); fill_histogram(c, hm2);
+  // signed image into maps (the vector / array overloads refuse signed images), a 16 bit image into a vector
+  std::map<double, int> hmd; std::map<int, int> hmi; fill_histogram(gs, hmd); fill_histogram(gs, hmi, true); fill_histogram(g16, hv, true);
   auto cv = cumulative_histogram(hv); auto ca = cumulative_histogram(ha); auto cm = cumulative_histogram(hm); (void)cv; (void)ca; (void)cm;
   auto cv2 = cumulative_histogram(hv2); auto ca2 = cumulative_histogram(ha2); auto cm2 = cumulative_histogram(hm2); (void)cv2; (void)ca2; (void)cm2;
 }
